@@ -65,6 +65,10 @@ type Scenario struct {
 	MaxRetries   int    `json:"maxRetries,omitempty"`
 	// Neighbour (keepalive): a second peer of the same server that answers every ping
 	Neighbour bool `json:"neighbour,omitempty"`
+	// NoResponse (twolocal): the requests to the second local address carry No-Response = 2 (they ask
+	// for no 2.xx response): handled, and nothing but a bare acknowledgement comes back - while the
+	// requests to the first address, same message IDs, are answered
+	NoResponse bool `json:"noResponse,omitempty"`
 }
 
 type usConn struct {
@@ -209,7 +213,11 @@ func execOnce(sc Scenario) *evid.Failure {
 			}
 			a, b := fmt.Sprintf("A%d", k), fmt.Sprintf("B%d", k)
 			_, _ = raw.WriteToUDP(peer.Datagram(request(100+k, byte(k), a)), dst1)
-			_, _ = raw.WriteToUDP(peer.Datagram(request(mid2, byte(k), b)), dst2)
+			rb := request(mid2, byte(k), b)
+			if sc.NoResponse {
+				rb.Opts = append(rb.Opts, peer.Opt(258, []byte{2}))
+			}
+			_, _ = raw.WriteToUDP(peer.Datagram(rb), dst2)
 			want = append(want, a, b)
 		}
 		got := read(400 * time.Millisecond)
@@ -217,6 +225,13 @@ func execOnce(sc Scenario) *evid.Failure {
 		for _, r := range got {
 			if r.m.Code == 68 {
 				echoes[string(r.m.Payload)] = r.from
+			}
+		}
+		if sc.NoResponse {
+			for _, r := range got {
+				if r.m.Code != 0 && r.from == "127.0.0.2" {
+					return evid.Failf("udpserver/suppressed-response-on-wire", sc, "the requests to the server's second address carried No-Response = 2, yet a response (code %d, payload %q) came back from that address (requests with the same message IDs to the first address, without the option, were answered just before)", r.m.Code, r.m.Payload)
+				}
 			}
 		}
 		mu.Lock()
@@ -230,6 +245,12 @@ func execOnce(sc Scenario) *evid.Failure {
 				return evid.Failf("udpserver/two-local-addresses", sc, "request %q (sent to the server's address %d of 2 from one remote socket, message IDs equal: %v) reached the handler %d times, want once; handled: %v", b, i%2+1, sc.SameMID, count[b], handled)
 			}
 			from, ok := echoes["echo:"+b]
+			if sc.NoResponse && i%2 == 1 {
+				if ok {
+					return evid.Failf("udpserver/suppressed-response-on-wire", sc, "request %q carried No-Response = 2, yet a 2.04 answer for it came back (a request with the same message ID to the server's other address, without the option, was answered just before)", b)
+				}
+				continue
+			}
 			if !ok {
 				return evid.Failf("udpserver/two-local-addresses", sc, "request %q was not answered with its own echo (answers: %v)", b, echoes)
 			}
@@ -586,6 +607,9 @@ func Gen(modes []string) func(t *rapid.T) Scenario {
 		switch sc.Mode {
 		case "twolocal":
 			sc.N, sc.SameMID = rapid.IntRange(1, 4).Draw(t, "n"), rapid.IntRange(0, 3).Draw(t, "samemid") > 0
+		case "twolocal-nr":
+			sc.Mode, sc.NoResponse = "twolocal", true
+			sc.N, sc.SameMID = rapid.IntRange(1, 4).Draw(t, "n"), true
 		case "closed":
 			sc.N = rapid.IntRange(1, 3).Draw(t, "n")
 		case "idle":
